@@ -306,7 +306,7 @@ func endlessScript(rt *rapid.T, fault string) (string, string) {
 		}
 		return strings.Replace(l, "BODY", b, 1)
 	}
-	shape := rapid.SampledFrom([]string{"top", "top", "function", "nested-functions", "function-in-loop", "recursion-with-loop", "foreach-endless", "after-work", "branching-recursion", "branching-recursion", "mutual-branching", "straight-line", "cheap-ops"}).Draw(rt, "shape")
+	shape := rapid.SampledFrom([]string{"top", "top", "function", "nested-functions", "function-in-loop", "recursion-with-loop", "foreach-endless", "after-work", "branching-recursion", "branching-recursion", "mutual-branching", "straight-line", "cheap-ops", "doubling"}).Draw(rt, "shape")
 	pre := "trace(0); x = 0;\n"
 	if fault != "" {
 		pre = "if ( Boom ) { " + fault + " }\n" + pre
@@ -371,6 +371,23 @@ func endlessScript(rt *rapid.T, fault string) (string, string) {
 			"x = 9223372036854775807 % 3;", "x = 9223372036854775807 / 2;", "x = (0 - 9223372036854775807) * 3;", "x = \"a\" in \"abcabc\";", "x = len(\"狐犬\");", "x = [1, 2, 3][2];",
 			"x = 2 ** Min;", "x = 1 ** Min;", "x = (0 - 1) ** Min;", "x = 3 ** Max;", "x = Min % 7;", "x = Min / 3;", "x = Max * Max;", "x = Min - 1;", "x = 2.0 ** Min;", "x = Min ** 2;"}).Draw(rt, "cheapop")
 		return pre + "while (true) { " + op + " }", shape
+	case "doubling":
+		// values that mention themselves twice: cheap (the members are shared)
+		// however large they would be written out; the loop ends in the
+		// nesting limit or in the deadline, whichever comes first
+		op := rapid.SampledFrom([]string{"a = [a, a];", "a = {\"l\": a, \"r\": a};", "a = [a, [x], a, a];", "a = [a, a]; b = len(a);", "a = [a, a]; b = [a, a];", "a = {1: a, 2: [a, a]};",
+			"WIDE", "WIDE", "WIDE", "WIDEHASH"}).Draw(rt, "doubleop")
+		if strings.HasPrefix(op, "WIDE") {
+			// many mentions in one literal (any number: what one step costs grows
+			// by that factor each time round, if it grows)
+			w := rapid.SampledFrom([]int{3, 17, 40, 60, 70, 80, 90, 100, 110, 120}).Draw(rt, "mentions")
+			if op == "WIDE" {
+				op = "a = [" + strings.Repeat("a, ", w) + "a];"
+			} else {
+				op = "a = {x: a, \"k\": [" + strings.Repeat("a, ", w) + "a]};"
+			}
+		}
+		return pre + "a = 1;\nwhile (true) { " + op + " }", shape
 	case "foreach-endless":
 		return pre + "while (true) { foreach i, v in 1.." + fmt.Sprint(rapid.IntRange(1, 10000).Draw(rt, "rangelen")) + " { x = v; } }", shape
 	}
@@ -400,8 +417,11 @@ func TestC09(t *testing.T) {
 		} else {
 			c.Endless = true
 			c.PrepHistory = rapid.SampledFrom([]string{"", "", "", "validate-first", "other-context-first", "expired-first"}).Draw(rt, "prephistory")
-			faults := map[string]string{"": "", "panic": "panic(\"boom\");", "mod0": "x = 1 % 0;", "arity": "len(1, 2, 3) % 0;", "index": "x = [1][\"a\"];", "in-function": "function boomf(q) { foreach z in [1] { return q / 0; } } boomf(1);"}
-			c.FaultFirst = rapid.SampledFrom([]string{"", "", "", "panic", "mod0", "arity", "index", "in-function"}).Draw(rt, "faultfirst")
+			faults := map[string]string{"": "", "panic": "panic(\"boom\");", "mod0": "x = 1 % 0;", "arity": "len(1, 2, 3) % 0;", "index": "x = [1][\"a\"];", "in-function": "function boomf(q) { foreach z in [1] { return q / 0; } } boomf(1);",
+				"runaway": "function boomr(q) { return boomr(q + 1); } boomr(0);", "runaway-in-loop": "function boomr(q) { local w; w = q; return 1 + boomr(w + 1); } foreach z in [1, 2] { x = boomr(0); }",
+				"unknown-function": "x = nosuch(1);", "deep-fault": "function boomd(q) { if ( q <= 0 ) { return len(1, 2) % 0; } return boomd(q - 1); } boomd(300);",
+				"value-too-deep": "bz = 1; bn = 0; while ( bn < 20000 ) { bz = [bz]; bn = bn + 1; } x = 1 % 0;"}
+			c.FaultFirst = rapid.SampledFrom([]string{"", "", "", "", "panic", "mod0", "arity", "index", "in-function", "runaway", "runaway-in-loop", "unknown-function", "deep-fault", "value-too-deep"}).Draw(rt, "faultfirst")
 			c.Script, shape = endlessScript(rt, faults[c.FaultFirst])
 			c.Ctx = rapid.SampledFrom([]string{"cancelled", "past", "deadline", "deadline", "deadline", "cancel-later", "cancel-later"}).Draw(rt, "ctx")
 			c.FarDeadline = rapid.Bool().Draw(rt, "fardeadline")
@@ -409,6 +429,11 @@ func TestC09(t *testing.T) {
 			switch c.Ctx {
 			case "deadline":
 				c.Millis = rapid.SampledFrom([]int{1, 2, 5, 10, 20, 50, 100, 200, 300}).Draw(rt, "ms")
+				if shape == "doubling" && c.Millis < 100 {
+					// a step that takes as long as everything before it taken
+					// together is only seen late by a deadline that is not tiny
+					c.Millis = rapid.SampledFrom([]int{100, 200, 300}).Draw(rt, "msdoubling")
+				}
 			case "cancel-later":
 				c.Millis = rapid.IntRange(0, 100).Draw(rt, "cancelms")
 			}
